@@ -326,3 +326,26 @@ func NShards() int {
 	}
 	return v
 }
+
+// Journal writes the case about to be executed (write-ahead): when the process dies inside the code under test
+// (a panic on a worker goroutine cannot be recovered), the driver takes the journalled case as the culprit.
+func Journal(property, facet string, c any) {
+	dir := os.Getenv("VERIF_FAIL_DIR")
+	if dir == "" {
+		return
+	}
+	os.MkdirAll(dir, 0o755)
+	raw, _ := json.Marshal(c)
+	f := Failure{Property: property, Facet: facet, Message: "the process died while executing this case (see output_tail)", Case: raw, Seed: os.Getenv("VERIF_SEED")}
+	b, _ := json.Marshal(f)
+	os.WriteFile(filepath.Join(dir, "journal-"+os.Getenv("VERIF_SHARD")+".json"), b, 0o644)
+}
+
+// JournalDone removes the journal entry after the case returned normally.
+func JournalDone() {
+	dir := os.Getenv("VERIF_FAIL_DIR")
+	if dir == "" {
+		return
+	}
+	os.Remove(filepath.Join(dir, "journal-"+os.Getenv("VERIF_SHARD")+".json"))
+}
